@@ -1,5 +1,6 @@
 import SimVerif.Gen.LTrack
 import SimVerif.Gen.LTrackDist
+import SimVerif.Gen.LTrackBuild
 import SimVerif.Model.Track
 /-!
 # Tie (DESIGN.md 14.8 / 14.11): `Track::add_observation` and `Track::merge` as the Rust source has them now
@@ -437,6 +438,87 @@ theorem tie_track_distances {OA : Type} (cb : Cb TA M OA U Q E) (t other : Track
         cases cb.metric cls t.attrs a other.attrs b <;> rfl
   · have hc' : cb.compatible t.attrs other.attrs = false := Bool.eq_false_iff.mpr hc
     simp [hc']
+
+/-! ### `TrackBuilder::build` -/
+
+/-- one iteration of the loop of `build` (the text of the generated fold body) -/
+def buildStepGen {T A F : Type} (addObsFn : T → Nat → Option A → Option F → Option U → Except (Err E) Unit × T)
+    (st : Sum (Except (Err E) T) T) (x : Nat × Option A × Option F × Option U) : Sum (Except (Err E) T) T :=
+  match x with
+  | (cls, oa, feat, upd) =>
+    match st with
+    | Sum.inl r => Sum.inl r
+    | Sum.inr track =>
+      match addObsFn track cls oa feat upd with
+      | (r, track') =>
+        match r with
+        | .error e => Sum.inl (.error e)
+        | .ok _ => Sum.inr track'
+
+def buildFinish {T : Type} (s : Sum (Except (Err E) T) T) : Except (Err E) T :=
+  match s with
+  | Sum.inl r => r
+  | Sum.inr t => .ok t
+
+theorem foldl_ext_fn {α β : Type} (f g : β → α → β) (h : ∀ s x, f s x = g s x) (l : List α) (s : β) :
+    List.foldl f s l = List.foldl g s l := by
+  induction l generalizing s with
+  | nil => rfl
+  | cons x rest ih => rw [List.foldl_cons, List.foldl_cons, h, ih]
+
+theorem gen_build {T N A F : Type} (newFn : Nat → M → TA → N → T) (addObsFn : T → Nat → Option A → Option F → Option U → Except (Err E) Unit × T)
+    (id : Nat) (m : M) (a : TA) (nt : N) (obs : List (Nat × Option A × Option F × Option U)) :
+    track_build newFn addObsFn id m a nt obs = buildFinish (List.foldl (buildStepGen addObsFn) (Sum.inr (newFn id m a nt)) obs) := by
+  unfold track_build
+  simp only []
+  rw [foldl_ext_fn _ (buildStepGen addObsFn) (by
+    intro s x
+    obtain ⟨c, oa, f, u⟩ := x
+    cases s with
+    | inl r => rfl
+    | inr t =>
+      simp only [buildStepGen]
+      cases h : addObsFn t c oa f u with
+      | mk r t' => cases r <;> rfl)]
+  generalize List.foldl (buildStepGen addObsFn) (Sum.inr (newFn id m a nt)) obs = s
+  cases s <;> rfl
+
+/-- the loop of `build` is the model's `buildLoop` (an observation that is refused ends the build with that error) -/
+theorem build_fold {OA : Type} (cb : Cb TA M OA U Q E) {A F : Type} (obsOf : Option A → Option F → Option OA)
+    (obs : List (Nat × Option A × Option F × Option U)) (t : Track TA M OA) (n : Nat) :
+    buildFinish (List.foldl (buildStepGen (fun t c oa f u => ((addObservation cb t c (obsOf oa f) u).1, (addObservation cb t c (obsOf oa f) u).2.1)))
+        (Sum.inr t) obs) = (buildLoop cb t n (obs.map (fun x => (x.1, obsOf x.2.1 x.2.2.1, x.2.2.2)))).1 := by
+  induction obs generalizing t n with
+  | nil => rfl
+  | cons x rest ih =>
+    obtain ⟨c, oa, f, u⟩ := x
+    rw [List.foldl_cons]
+    simp only [List.map_cons, buildLoop, buildStepGen]
+    cases ha : addObservation cb t c (obsOf oa f) u with
+    | mk r rest2 =>
+      obtain ⟨t', k⟩ := rest2
+      cases r with
+      | error e =>
+        simp only []
+        have hinl : ∀ l : List (Nat × Option A × Option F × Option U),
+            List.foldl (buildStepGen (fun t c oa f u => ((addObservation cb t c (obsOf oa f) u).1, (addObservation cb t c (obsOf oa f) u).2.1)))
+              (Sum.inl (Except.error e)) l = Sum.inl (Except.error e) := by
+          intro l; induction l with
+          | nil => rfl
+          | cons y ys ihy => obtain ⟨c', oa', f', u'⟩ := y; rw [List.foldl_cons]; exact ihy
+        rw [hinl]; rfl
+      | ok u => cases u; simp only []; exact ih t' (n + k)
+
+/-- **`TrackBuilder::build` of the source is the model's `build`**: a fresh track, then every queued observation through
+`add_observation`, stopping at the first refusal -/
+theorem tie_track_build {OA N : Type} (cb : Cb TA M OA U Q E) {A F : Type} (obsOf : Option A → Option F → Option OA)
+    (id : Nat) (m : M) (a : TA) (nt : N) (obs : List (Nat × Option A × Option F × Option U)) :
+    track_build (fun id m a (_ : N) => (Track.new (OA := OA) id m a).1)
+        (fun t c oa f u => ((addObservation cb t c (obsOf oa f) u).1, (addObservation cb t c (obsOf oa f) u).2.1)) id m a nt obs
+      = (build cb id m a (obs.map (fun x => (x.1, obsOf x.2.1 x.2.2.1, x.2.2.2)))).1 := by
+  rw [gen_build]
+  unfold build
+  exact build_fold cb obsOf obs _ _
 
 /-- non-vacuity: a failing optimisation after a successful attribute update; the source's answer is the error and the
 track as it was, although the callbacks left other values behind -/
